@@ -46,6 +46,14 @@ UNDECIDED = {
     "MonarchButterflyOptimization": "N - keep trimmed + keep elites",
     "WaterCycleOptimization": "sea/rivers + regrouped streams",
 }
+CONSERVED = set("""AfricanVulture AntColony AntLion Aquila Archimede Bat BattleRoyale BiogeographyBased BrownBear CamelCaravan CatSwarm
+ChaosGame ChernobylDisaster Coati CoralReef CoronavirusHerdImmunity Dragonfly DwarfMongoose EgretSwarm ElectromagneticField EnergyValley
+FicksLaw FireflySwarm Fireworks FishSchoolSearch FlowerPollinationAlgorithm ForensicBasedInvestigation Fox GainingSharingKnowledge
+GerminalCenter GiantTrevally GizaPyramidConstruction GoldenJackal Grasshopper GreyWolf HarmonySearch HeapBased HungerGamesSearch
+InvasiveWeed KrillHerd LeviFlightJayaSwarm MarinePredators MothFlame MountainGazelle Multiverse NuclearReaction Osprey ParticleSwarm
+PathfinderAlgorithm Pelican RungeKutta SalpSwarm Seagull Serval SiberianTiger QleSineCosineAlgorithm SineCosineAlgorithm SpottedHyena
+SuccessHistoryIntelligent SwarmHillClimbing TasmanianDevil TunaSwarm VirusColonySearch Walrus WarStrategy Whales WildebeestHerd WindDriven
+Zebra""".split())
 N_CONSERVED = 69
 
 
@@ -138,6 +146,12 @@ def run(prog: Program, res: Result) -> None:
         n_writes += len(ws)
         init_over = prog.lookup_method(ci, "_init_population").cls.qualname != ABSTRACT
         listed_undecided = ci.name in UNDECIDED
+        sn = ci.name[:-len("Optimization")] if ci.name.endswith("Optimization") else ci.name
+        if not listed_undecided and sn not in CONSERVED:
+            # a class the reference tables do not know (added later): classify, report as information only
+            cls = [len_class(prog, ci, w, shaped)[0] for w in ws]
+            res.note(f"{ci.name} is in no reference table: writes classified {sorted(set(cls))} (informational)")
+            continue
         problems = []
         for w in ws:
             c, why = len_class(prog, ci, w, shaped)
@@ -173,9 +187,9 @@ def run(prog: Program, res: Result) -> None:
     res.count("population-write-sites", n_writes)
     res.count("conserved-by-construction", conserved)
     res.floor("population-write-sites", 100)
-    new_classes = [ci.name for ci in opts if ci.name not in UNDECIDED]
-    if len(new_classes) < N_CONSERVED:
-        res.errors.append(f"only {len(new_classes)} optimizers outside the undecided table, {N_CONSERVED} confirmed")
+    present = [ci.name for ci in opts if (ci.name[:-len("Optimization")] if ci.name.endswith("Optimization") else ci.name) in CONSERVED]
+    if len(present) < N_CONSERVED:
+        res.errors.append(f"only {len(present)} of the {N_CONSERVED} reference-listed conserved optimizers are exported")
 
 
 # ---------------------------------------------------------------------------------------------
